@@ -16,7 +16,7 @@ import (
 // ATV is one attribute of a relative distinguished name.
 // T is a short name (CN,O,OU,C,L,ST,SN,DC,EMAIL) or a dotted OID.
 // Kind selects the string type: "" (auto: Printable if possible else UTF8),
-// "utf8", "printable", "ia5".
+// "utf8", "printable", "ia5", "t61" (TeletexString, one byte per Latin-1 character).
 type ATV struct {
 	T    string `json:"t"`
 	V    string `json:"v"`
@@ -62,6 +62,15 @@ func (n NameSpec) DER() []byte {
 				tag = 0x16
 			case "utf8":
 				tag = 0x0c
+			case "t61":
+				// TeletexString as old PKIs wrote it: one byte per Latin-1 character (NOT valid UTF-8 above 0x7f)
+				tag = 0x14
+				b := make([]byte, 0, len(a.V))
+				for _, r := range a.V {
+					b = append(b, byte(r))
+				}
+				atvs = append(atvs, TLV(0x30, DEROID(oid), TLV(tag, b)))
+				continue
 			default:
 				if isPrintable(a.V) {
 					tag = 0x13
